@@ -1,12 +1,249 @@
 /-
   C16 — Any statement yields a result or an error — never a panic, never a hang.
+
+  Property theorems for the worker pool every statement runs on (`Model/Pool.lean`; helper lemmas in
+  `Lemmas/Pool.lean`).  All statements quantify over every pool size, every sequence of submitted jobs and
+  every schedule (= every sequence of enabled steps) of the model; nothing is bounded.
+  `Defects.none` is the intended pool, `{ panicKillsWorker := true }` the shipped worker loop.
 -/
 import AxVerif.Lemmas.Pool
 namespace AxVerif.Pool
 
-/-- shipped defect: after `size` panicking jobs the next job is never answered (size 2, canonical schedule) -/
+/-- the shipped worker loop -/
+def shipped : Defects := { panicKillsWorker := true }
+
+/-! ### safety: holds in every reachable state, for every schedule, with or without the defect -/
+
+/-- Workers are conserved: every worker is idle, running a job, or dead. -/
+theorem pool_workers_conserved (D : Defects) (n : Nat) (tr : List Step) (s : State)
+    (hr : run D (init n) tr = some s) : s.live + s.dead = n :=
+  (inv_reachable hr).workers
+
+/-- Without the defect the number of live workers never changes: no job — whatever it does — costs a worker. -/
+theorem pool_workers_invariant (n : Nat) (tr : List Step) (s : State)
+    (hr : run Defects.none (init n) tr = some s) : s.live = n ∧ s.dead = 0 := by
+  have h := inv_reachable hr
+  have hd := h.dead0 rfl
+  have hw := h.workers
+  unfold State.live
+  omega
+
+/-- No job is ever answered twice, and an answer is always the one belonging to the submitted job
+    (`ok` → ok, `err` → error, `panic` → error). -/
+theorem pool_at_most_once (D : Defects) (n : Nat) (tr : List Step) (s : State)
+    (hr : run D (init n) tr = some s) (i : Nat) :
+    (s.resp.map (·.1)).count i ≤ 1 ∧
+    ∀ r, response s i = some r → ∃ k, (submitted tr)[i]? = some k ∧ r = respOf k :=
+  ⟨count_resp_le_one (inv_reachable hr) i, fun _ h => response_kind (inv_reachable hr) h⟩
+
+/-- A submitted job is answered, running or queued — it cannot vanish. -/
+theorem pool_no_job_vanishes (D : Defects) (n : Nat) (tr : List Step) (s : State)
+    (hr : run D (init n) tr = some s) (i : Nat) (hi : i < (submitted tr).length) :
+    i ∈ s.resp.map (·.1) ∨ i ∈ s.busy.map (·.id) ∨ i ∈ s.queue.map (·.id) := by
+  have h := inv_reachable hr
+  have hm : i ∈ allIds s := by
+    rw [h.perm.mem_iff, List.mem_range, h.next_eq]; exact hi
+  simpa [allIds] using hm
+
+/-! ### progress and termination -/
+
+/-- A state is quiescent exactly when no internal step (take / finish) is enabled. -/
+theorem pool_progress (D : Defects) (s : State) :
+    quiescent s = false ↔ ∃ st, st.internal = true ∧ (step D s st).isSome = true := by
+  constructor
+  · intro hq
+    by_cases hb : s.busy = []
+    · have hq' : ¬ (s.queue = [] ∨ s.idle = 0) := by
+        intro h
+        have := (quiescent_iff s).mpr ⟨hb, h⟩
+        rw [hq] at this; cases this
+      have h1 : s.queue ≠ [] := fun h => hq' (Or.inl h)
+      have h2 : 0 < s.idle := by
+        rcases Nat.eq_zero_or_pos s.idle with h | h
+        · exact absurd (Or.inr h) hq'
+        · exact h
+      exact ⟨.take, rfl, take_enabled h1 h2⟩
+    · exact ⟨.finish 0, rfl, finish_enabled D hb⟩
+  · intro ⟨st, hint, hen⟩
+    cases hqs : quiescent s with
+    | false => rfl
+    | true =>
+      obtain ⟨hb, hq⟩ := (quiescent_iff s).mp hqs
+      cases st with
+      | submit k => cases hint
+      | take =>
+        simp only [step, take] at hen
+        rcases hq with hq | hq
+        · simp [hq] at hen
+        · cases hqq : s.queue <;> simp [hqq, hq] at hen
+      | finish i =>
+        simp [step, finish, hb] at hen
+
+/-- A non-empty queue with a live idle worker always has an enabled step, and so has a running job. -/
+theorem pool_enabled (D : Defects) (s : State) :
+    (s.queue ≠ [] → 0 < s.idle → (step D s .take).isSome = true) ∧
+    (s.busy ≠ [] → (step D s (.finish 0)).isSome = true) :=
+  ⟨fun h1 h2 => take_enabled h1 h2, fun h => finish_enabled D h⟩
+
+/-- Every internal step lowers the measure `2·|queue| + |running|` by exactly one. -/
+theorem pool_internal_step_decreases (D : Defects) (s s' : State) (st : Step)
+    (hint : st.internal = true) (hs : step D s st = some s') : measure s' + 1 = measure s := by
+  cases st with
+  | submit k => cases hint
+  | take => exact take_measure hs
+  | finish i => exact finish_measure hs
+
+/-- Termination: a schedule of internal steps from `s` has exactly `measure s - measure s'` steps, hence at most
+    `measure s`: without new submissions the pool cannot run forever. -/
+theorem pool_terminates (D : Defects) : ∀ (tr : List Step) (s s' : State),
+    (∀ st ∈ tr, st.internal = true) → run D s tr = some s' → tr.length + measure s' = measure s
+  | [], s, s', _, hr => by
+    simp only [run, Option.some.injEq] at hr
+    subst hr; simp
+  | st :: tr, s, s', hint, hr => by
+    simp only [run] at hr
+    split at hr
+    · cases hr
+    · rename_i s1 hs1
+      have h1 := pool_internal_step_decreases D s s1 st (hint st (by simp)) hs1
+      have h2 := pool_terminates D tr s1 s' (fun x hx => hint x (by simp [hx])) hr
+      simp only [List.length_cons]; omega
+
+/-- Without the defect and with at least one worker, quiescent means: nothing queued, nothing running. -/
+theorem pool_quiescent_iff_measure_zero (n : Nat) (hn : 0 < n) (tr : List Step) (s : State)
+    (hr : run Defects.none (init n) tr = some s) : quiescent s = true ↔ measure s = 0 := by
+  have hw := pool_workers_invariant n tr s hr
+  unfold State.live at hw
+  rw [quiescent_iff]
+  unfold measure
+  constructor
+  · intro ⟨hb, hq⟩
+    rw [hb] at hw
+    simp only [List.length_nil] at hw
+    rcases hq with hq | hq
+    · simp [hb, hq]
+    · omega
+  · intro hm
+    have h1 : s.queue.length = 0 := by omega
+    have h2 : s.busy.length = 0 := by omega
+    exact ⟨List.eq_nil_of_length_eq_zero h2, Or.inl (List.eq_nil_of_length_eq_zero h1)⟩
+
+/-! ### liveness: every job is answered exactly once -/
+
+/-- **Every job is answered exactly once.**  For every pool size `n > 0`, every sequence of submissions and every
+    schedule: once the pool is quiescent (which every schedule that keeps taking enabled steps reaches, by
+    `pool_terminates` and `pool_progress`), each submitted job has exactly one answer, and it is the answer of
+    that job — a panicking job is answered with an error like any other failure. -/
+theorem pool_every_job_answered (n : Nat) (hn : 0 < n) (tr : List Step) (s : State)
+    (hr : run Defects.none (init n) tr = some s) (hq : quiescent s = true)
+    (i : Nat) (hi : i < (submitted tr).length) :
+    (s.resp.map (·.1)).count i = 1 ∧ response s i = some (respOf ((submitted tr)[i])) := by
+  have h := inv_reachable hr
+  have hm := (pool_quiescent_iff_measure_zero n hn tr s hr).mp hq
+  unfold measure at hm
+  have hq0 : s.queue = [] := List.eq_nil_of_length_eq_zero (by omega)
+  have hb0 : s.busy = [] := List.eq_nil_of_length_eq_zero (by omega)
+  have hc := count_allIds h i
+  rw [h.next_eq, if_pos hi] at hc
+  simp only [allIds, hq0, hb0, List.map_nil, List.append_nil] at hc
+  refine ⟨hc, ?_⟩
+  have hmem : i ∈ s.resp.map (·.1) := List.count_pos_iff.mp (by omega)
+  obtain ⟨p, hp, hpi⟩ := List.mem_map.mp hmem
+  have hp' : (i, p.2) ∈ s.resp := by rw [← hpi]; exact hp
+  obtain ⟨r', hr', _⟩ := response_of_mem hp'
+  obtain ⟨k, hk, hrk⟩ := response_kind h hr'
+  rw [List.getElem?_eq_getElem hi] at hk
+  cases hk
+  rw [hr', hrk]
+
+/-- **Fair schedules terminate with every job answered.**  From any reachable state of the defect-free pool, any
+    schedule of internal steps has at most `measure s` steps; one that cannot be extended has exactly that many,
+    and then every job submitted so far has its one answer. -/
+theorem pool_fair_schedule_answers_all (n : Nat) (hn : 0 < n) (tr tr1 : List Step) (s s' : State)
+    (hr : run Defects.none (init n) tr = some s)
+    (hint : ∀ st ∈ tr1, st.internal = true) (hr1 : run Defects.none s tr1 = some s') :
+    tr1.length ≤ measure s ∧
+    (quiescent s' = true ↔ tr1.length = measure s) ∧
+    (quiescent s' = true → ∀ i (hi : i < (submitted tr).length),
+      (s'.resp.map (·.1)).count i = 1 ∧ response s' i = some (respOf ((submitted tr)[i]))) := by
+  have hlen := pool_terminates Defects.none tr1 s s' hint hr1
+  have hrun : run Defects.none (init n) (tr ++ tr1) = some s' := run_append hr hr1
+  have hsub : submitted (tr ++ tr1) = submitted tr := submitted_append_internal tr tr1 hint
+  have hqm := pool_quiescent_iff_measure_zero n hn (tr ++ tr1) s' hrun
+  refine ⟨by omega, ?_, ?_⟩
+  · rw [hqm]; omega
+  · intro hq i hi
+    have := pool_every_job_answered n hn (tr ++ tr1) s' hrun hq i (by rw [hsub]; exact hi)
+    simpa [hsub] using this
+
+/-! ### the driver's canonical schedule -/
+
+/-- What the line-protocol driver computes (`exec`) is the end state of a real schedule of the state machine:
+    it submits exactly the jobs of the case, in order, and ends quiescent. -/
+theorem exec_is_a_schedule (D : Defects) (n : Nat) (ops : List Op) :
+    ∃ tr, run D (init n) tr = some (exec D n ops) ∧ submitted tr = (ops.map Op.kinds).flatten ∧
+      quiescent (exec D n ops) = true :=
+  exec_run_from D ops (init n) rfl
+
+/-- Hence the spec line of every `seq` case is: each job answered with its own answer, all workers alive. -/
+theorem exec_answers_all (n : Nat) (hn : 0 < n) (ops : List Op) :
+    outcomes (exec Defects.none n ops) = ((ops.map Op.kinds).flatten).map (fun k => some (respOf k)) ∧
+    (exec Defects.none n ops).live = n := by
+  obtain ⟨tr, hr, hs, hq⟩ := exec_is_a_schedule Defects.none n ops
+  refine ⟨?_, (pool_workers_invariant n tr _ hr).1⟩
+  have hnext := (inv_reachable hr).next_eq
+  rw [← hs]
+  apply List.ext_getElem
+  · simp [outcomes, hnext]
+  · intro i h1 h2
+    have hi : i < (submitted tr).length := by simpa using h2
+    have := (pool_every_job_answered n hn tr _ hr hq i hi).2
+    simp [outcomes, this]
+
+/-! ### the shipped defect -/
+
+/-- **Witness of `panicKillsWorker`.**  On a pool of any size `n`, after `n` jobs that panic (each of them answered
+    with an error), no worker is left, and a job submitted then is never answered: whatever happens afterwards —
+    any schedule, any further submissions — its caller stays blocked. -/
+theorem panicKillsWorker_witness (n : Nat) (k : Kind) :
+    ∃ s, run shipped (init n) (killAll n ++ [.submit k]) = some s ∧ s.live = 0 ∧
+      ∀ tr s', run shipped s tr = some s' → response s' n = none ∧ s'.live = 0 := by
+  obtain ⟨resp', h⟩ := killAll_run n 0 0 []
+  have hrun : run shipped (init n) (killAll n ++ [.submit k])
+      = some (submit ⟨0, 0 + n, [], [], resp', 0 + n⟩ k) :=
+    run_append (s1 := ⟨0, 0 + n, [], [], resp', 0 + n⟩) h rfl
+  refine ⟨_, hrun, by simp [State.live, submit], ?_⟩
+  intro tr s' hr'
+  have hinv := inv_reachable hrun
+  obtain ⟨h1, h2, h3⟩ := stuck_run shipped tr _ s' (by simp [submit]) (by simp [submit]) hr'
+  refine ⟨?_, by simp [State.live, h1, h2]⟩
+  rw [response_congr h3]
+  apply response_none_of_not_mem
+  intro hmem
+  have hc := count_allIds hinv n
+  simp only [allIds, submit, List.map_nil, List.nil_append, List.map_cons, Nat.zero_add,
+    Nat.lt_add_one, if_true, List.count_append, List.count_singleton_self] at hc
+  have : 0 < List.count n (List.map (fun x => x.fst) resp') := List.count_pos_iff.mpr (by simpa [submit] using hmem)
+  omega
+
+/-- the same on the driver's canonical schedule, pool of 2: the third call is lost; without the defect it is answered -/
 theorem panicKillsWorker_witness_concrete :
-    outcomes (exec { panicKillsWorker := true } 2 [.call .panic, .call .panic, .call .ok])
-      = [some .panicAsError, some .panicAsError, none] := by decide
+    outcomes (exec shipped 2 [.call .panic, .call .panic, .call .ok])
+      = [some .panicAsError, some .panicAsError, none] ∧
+    (exec shipped 2 [.call .panic, .call .panic, .call .ok]).live = 0 ∧
+    outcomes (exec Defects.none 2 [.call .panic, .call .panic, .call .ok])
+      = [some .panicAsError, some .panicAsError, some .ok] := by decide
+
+/-- a single panicking job already costs a worker in the shipped loop -/
+theorem panicKillsWorker_one_panic : (exec shipped 2 [.call .ok, .call .panic, .call .ok]).live = 1 := by decide
+
+/-! ### the hypotheses above are satisfiable -/
+
+/-- a non-trivial schedule on 2 workers: three jobs queued, two run concurrently, the younger one ends first -/
+example : ∃ s, run Defects.none (init 2)
+    [.submit .panic, .submit .ok, .submit .err, .take, .take, .finish 1, .take, .finish 0, .finish 0] = some s ∧
+    quiescent s = true ∧ s.resp = [(1, .ok), (0, .panicAsError), (2, .err)] := ⟨_, rfl, rfl, rfl⟩
+
+example : (∀ st ∈ [Step.take, Step.finish 0], st.internal = true) := by decide
 
 end AxVerif.Pool
